@@ -461,8 +461,13 @@ func (w *responseWriter) WriteMsg(m *dns.Msg) error {
 	// modified) version. If nothing survives — every AAAA was
 	// excluded, or there were none to begin with — fall through
 	// to the synthesis path.
+	// filteredAD remembers that the message about to be used — for
+	// synthesis, or as the fallback when synthesis is not possible — is
+	// our own edit of an answer the validator had vouched for.
+	strippedAny, filteredAD := false, false
 	if m.Rcode == dns.RcodeSuccess {
 		filtered, hadAAAA, kept, stripped := w.filterUpstreamAAAA(m)
+		strippedAny, filteredAD = stripped > 0, stripped > 0 && m.AuthenticatedData
 		if hadAAAA && kept > 0 {
 			passthroughAAAAPresent.Inc()
 			if stripped > 0 {
@@ -492,6 +497,15 @@ func (w *responseWriter) WriteMsg(m *dns.Msg) error {
 		// A lookup failed or yielded nothing usable; preserve the
 		// original (already AAAA-filtered) answer rather than
 		// papering over it. Reason has already been counted.
+		if strippedAny {
+			// Same rule as the kept > 0 branch above: an RRset we edited
+			// is not the one AD was set for. m is filterUpstreamAAAA's
+			// private copy here, so clearing the bit touches nothing shared.
+			m.AuthenticatedData = false
+			if filteredAD {
+				dnsutil.SetEDE(m, dns.ExtendedErrorCodeForgedAnswer, "DNS64 filtered IPv4-mapped AAAA")
+			}
+		}
 		return w.ResponseWriter.WriteMsg(m)
 	}
 	Synthesised.Inc()
